@@ -862,6 +862,7 @@ func extractGlobals(repo, gen, facts string) {
 	nodeWrites := extractNodeWrites(pkgOrder)
 	configCalls := extractConfigCalls(pkgOrder)
 	listeners := extractListenerDiscipline(pkgOrder)
+	paramWrites := extractParamWrites(pkgOrder)
 	type fact struct {
 		Globals     []globalVar          `json:"globals"`
 		Closures    []closureRec         `json:"closures"`
@@ -869,9 +870,10 @@ func extractGlobals(repo, gen, facts string) {
 		NodeWrites  []nodeWrite          `json:"nodeWrites"`
 		ConfigCalls []configCall         `json:"configCalls"`
 		Listeners   []listenerDiscipline `json:"listeners"`
+		ParamWrites []paramWrite         `json:"paramWrites"`
 		Notes       []string             `json:"notes,omitempty"`
 	}
-	js, _ := json.MarshalIndent(fact{all, closures, appends, nodeWrites, configCalls, listeners, notes}, "", " ")
+	js, _ := json.MarshalIndent(fact{all, closures, appends, nodeWrites, configCalls, listeners, paramWrites, notes}, "", " ")
 	writeIfChanged(filepath.Join(facts, "globals.json"), string(js)+"\n")
 
 	var b strings.Builder
@@ -947,6 +949,13 @@ func extractGlobals(repo, gen, facts string) {
 		fmt.Fprintf(&b, "def %sListeners : ParserPool.Discipline :=\n  { removeBeforeAlways := %v, removeBeforePlain := %v, removeAfterDeferred := %v, addsCollector := %v }\n",
 			l.Recogniser, l.RemoveBeforeAlways, l.RemoveBeforePlain, l.RemoveAfterDeferred, l.AddsCollector)
 	}
-	b.WriteString("end StorageModel.Generated\n")
+	b.WriteString("\ndef paramWrites : List ParamWrite := [\n")
+	for i, w := range paramWrites {
+		if i > 0 {
+			b.WriteString(",\n")
+		}
+		fmt.Fprintf(&b, "  { pkg := %q, func := %q, param := %q, how := .%s, api := .%s }", w.Pkg, w.Func, w.Param, w.How, w.Api)
+	}
+	b.WriteString("]\nend StorageModel.Generated\n")
 	writeIfChanged(filepath.Join(gen, "Globals.lean"), b.String())
 }
